@@ -314,6 +314,14 @@ func (fx *FuncCtx) oblige(st *State, kind, label, goal string, pos token.Pos, st
 		}
 		fx.obls = append(fx.obls, ob)
 	}
+	if strengthen && fx.ct != nil {
+		// a waived obligation (`unproved`) is stated, not claimed: what follows must not lean on it
+		for pat := range fx.ct.Unproved {
+			if globMatch(pat, label) {
+				strengthen = false
+			}
+		}
+	}
 	if strengthen && goal != "true" {
 		if strings.Contains(goal, "(forall ") || strings.Contains(goal, "(exists ") {
 			// checked, then assumed as a fact: keeps quantifiers out of the path conditions
